@@ -472,8 +472,13 @@ Definition kp_unique (pl : list (N * wprops)) : Prop :=
   forall k w1 w2 p1 p2, lookup w1 pl = Some p1 -> lookup w2 pl = Some p2 ->
                         In k (pk p1) -> In k (pk p2) -> w1 = w2.
 
+(* the routers that keep a key with the worker that has it pending: key-persistent, and sticky
+   queuer since fix 36a533a *)
+Definition owner_router (c : config) : Prop :=
+  c_router c = RKeyPersistent \/ (c_router c = RSticky /\ c_sticky_pending c = true).
+
 Definition Qkp (c : config) (pl : list (N * wprops)) : Prop :=
-  NoDup (map fst pl) /\ (c_router c = RKeyPersistent -> kp_unique pl).
+  NoDup (map fst pl) /\ (owner_router c -> kp_unique pl).
 
 Lemma lookup_None_notin {A} k (l : list (N * A)) : lookup k l = None <-> ~ In k (map fst l).
 Proof.
@@ -573,17 +578,26 @@ Proof.
   destruct (k =? x); [inversion L; subst; assumption|]. apply IH; assumption.
 Qed.
 
-(* key-persistent choose_target: a worker with the key pending wins *)
+(* choose_target of an owner router: a worker with the key pending wins *)
 Lemma kp_target_owner c k hint w wid w1 x p :
-  c_router c = RKeyPersistent -> NoDup (map fst (pool w)) -> kp_unique (pool w) ->
+  owner_router c -> NoDup (map fst (pool w)) -> kp_unique (pool w) ->
   choose_target c k hint w = (Some wid, w1) ->
   lookup x (pool w) = Some p -> In k (pk p) -> x = wid.
 Proof.
-  intros R ND U H L I. unfold choose_target in H. rewrite R in H.
-  destruct (find_worker (fun p => has_pending p k) (pool w)) as [y|] eqn:F.
-  - inversion H; subst. destruct (find_worker_some _ _ _ ND F) as (py & Ly & Hy).
-    apply has_pending_pk in Hy. eapply U; eassumption.
-  - apply (find_worker_none _ _ _ _ F) in L. apply has_pending_pk in I. congruence.
+  intros R ND U H L I. unfold choose_target in H. destruct R as [R|[R SP]]; rewrite R in H.
+  - destruct (find_worker (fun p => has_pending p k) (pool w)) as [y|] eqn:F.
+    + inversion H; subst. destruct (find_worker_some _ _ _ ND F) as (py & Ly & Hy).
+      apply has_pending_pk in Hy. eapply U; eassumption.
+    + apply (find_worker_none _ _ _ _ F) in L. apply has_pending_pk in I. congruence.
+  - rewrite SP in H.
+    match type of H with (if ?b then _ else _) = _ => destruct b eqn:HB end.
+    + destruct hint as [h|]; [|discriminate]. inversion H; subst.
+      destruct (lookup wid (pool w1)) as [ph|] eqn:Lh; [|discriminate].
+      apply has_pending_pk in HB. eapply U; eassumption.
+    + destruct (find_worker (fun p => has_pending p k) (pool w)) as [y|] eqn:F.
+      * inversion H; subst. destruct (find_worker_some _ _ _ ND F) as (py & Ly & Hy).
+        apply has_pending_pk in Hy. eapply U; eassumption.
+      * apply (find_worker_none _ _ _ _ F) in L. apply has_pending_pk in I. congruence.
 Qed.
 
 Theorem kp_pool_invariant : forall c n d rls ls, Qkp c (pool (run c (init c n d rls) ls)).
@@ -643,6 +657,18 @@ Qed.
    a key is pending (queued or believed running) at no more than one worker *)
 Theorem kp_one_owner : forall c n d rls ls k w1 w2 p1 p2,
   c_router c = RKeyPersistent ->
+  let pl := pool (run c (init c n d rls) ls) in
+  lookup w1 pl = Some p1 -> lookup w2 pl = Some p2 ->
+  has_pending p1 k = true -> has_pending p2 k = true -> w1 = w2.
+Proof.
+  intros c n d rls ls k w1 w2 p1 p2 R pl L1 L2 H1 H2.
+  destruct (kp_pool_invariant c n d rls ls) as [_ U].
+  apply has_pending_pk in H1. apply has_pending_pk in H2. eapply (U (or_introl R)); eassumption.
+Qed.
+
+(* the same for every owner router, i.e. also for sticky-queuer routing since fix 36a533a *)
+Theorem one_owner : forall c n d rls ls k w1 w2 p1 p2,
+  owner_router c ->
   let pl := pool (run c (init c n d rls) ls) in
   lookup w1 pl = Some p1 -> lookup w2 pl = Some p2 ->
   has_pending p1 k = true -> has_pending p2 k = true -> w1 = w2.
